@@ -173,6 +173,17 @@ func lex(src string) ([]tok, error) {
 			}
 			out = append(out, tok{"str", s, i})
 			i = j + 1
+		case c == '`':
+			// raw string, as in Go
+			j := i + 1
+			for j < len(src) && src[j] != '`' {
+				j++
+			}
+			if j >= len(src) {
+				return nil, fmt.Errorf("unterminated raw string at %d", i)
+			}
+			out = append(out, tok{"str", src[i+1 : j], i})
+			i = j + 1
 		case c == '\'':
 			j := i + 1
 			for j < len(src) && src[j] != '\'' {
@@ -590,6 +601,9 @@ type FuncContract struct {
 	Given []Clause
 	// CbGiven: assumed just before a callback named in `invokes` runs (over cbarg0, cbarg1, ...: the arguments it is called with)
 	CbGiven []Clause
+	// RetGiven: definitional unfoldings of ghost predicates, assumed in the state of each return point of the function itself
+	// (where the values a decoder / constructor has just built exist) and, like `assumes`, at its call sites
+	RetGiven []Clause
 	// Implements: key of the interface-method contract this in-repo method refines, e.g. "(io.Reader).Read".
 	Implements string
 	Assigns  *AssignsSpec
@@ -670,7 +684,7 @@ func ParseFile(path, text string, goFile bool) (*File, error) {
 	}
 	// group lines into logical clauses: a clause starts with a keyword at the
 	// beginning of the (trimmed) line; other lines continue the previous one.
-	kw := []string{"package", "import", "sort", "pure", "ghost", "lemma", "axiom", "func", "extern", "requires", "ensures", "assigns", "loop", "invariant", "decreases", "use", "inline", "noinline", "trusted", "opaque", "trigger", "invokes", "assumes", "defines", "repeats", "stream", "implements", "given", "cbgiven"}
+	kw := []string{"package", "import", "sort", "pure", "ghost", "lemma", "axiom", "func", "extern", "requires", "ensures", "assigns", "loop", "invariant", "decreases", "use", "inline", "noinline", "trusted", "opaque", "trigger", "invokes", "assumes", "defines", "repeats", "stream", "implements", "given", "cbgiven", "retgiven"}
 	var clauses []string
 	for _, ln := range lines {
 		t := strings.TrimSpace(ln)
@@ -778,7 +792,7 @@ func ParseFile(path, text string, goFile bool) (*File, error) {
 				return nil, fail(fmt.Errorf("implements outside func"))
 			}
 			curF.Implements = strings.TrimSpace(rest)
-		case "requires", "ensures", "invariant", "assumes", "defines", "stream", "given", "cbgiven":
+		case "requires", "ensures", "invariant", "assumes", "defines", "stream", "given", "cbgiven", "retgiven":
 			cl, err := parseClause(rest)
 			if err != nil {
 				return nil, fail(err)
@@ -803,6 +817,9 @@ func ParseFile(path, text string, goFile bool) (*File, error) {
 				curF.Given = append(curF.Given, cl)
 			case word == "cbgiven":
 				curF.CbGiven = append(curF.CbGiven, cl)
+			case word == "retgiven":
+				curF.RetGiven = append(curF.RetGiven, cl)
+				curF.Assumes = append(curF.Assumes, cl)
 			default:
 				curF.Ensures = append(curF.Ensures, cl)
 			}
